@@ -15,7 +15,7 @@ CONSTANTS
   MaxBS = 5
   Handles = {1, 2}
   AllowClone = TRUE
-INVARIANTS InRange HarvestExact
+INVARIANTS InRange HarvestExact UntrackedClean UntrackedAnswers
 PROPERTIES FrameOK RangeExact
 VIEW View
 CHECK_DEADLOCK FALSE
